@@ -1289,7 +1289,7 @@ def layout_pair_cases(prefix, seed, n):
     cases = []
     for i in range(n):
         s = (seed * 15485863 + i * 31) & 0x7FFFFFFF
-        base_profile = {"declare": 0.2, "random": 0.0, "reads": 0.3, "maxdepth": 3, "pbits": 0.1, "pC": 0.1, "pX": 0.1}
+        base_profile = {"declare": 0.2, "random": 0.0, "reads": 0.3, "maxdepth": 3, "pbits": 0.1, "pC": 0.1, "pX": 0.1, "odd_names": i % 3 == 0}
         a = gen.gen_run_case("%s-%d-a" % (prefix, i), s, dict(base_profile, fancy=False, trailing_nl=1.0))
         rng = random.Random(s ^ 0x1A70)
         body, cols = a["gen"]["body"], a["gen"]["cols"]
@@ -2424,3 +2424,27 @@ def c10_almost_valid(seed, tier):
 
 
 _extend("C10", c10_almost_valid, "plus programs that must be rejected (C12's edits), run if they are accepted")
+
+
+# C07: more than 64 signals in the LIST (the header names a few): per-signal data is looked up by signal, never through a 64-bit set
+def c07_many_signals(seed, tier):
+    cases = []
+    vals = ["(-1)", "255", "0x1F0", "(~0)", "(1<<63)", "17", "(-2)"]
+    for n in (64, 65, 70, 130):
+        sigs = [_sig("s%d" % k, "I" if k % 2 == 0 else "O", 4) for k in range(n)]
+        for pick in ([0, 1, n - 2, n - 1], [62, 63, n - 2, n - 1], [n - 4, n - 3, n - 2, n - 1]):
+            pick = sorted(set(k for k in pick if 0 <= k < n))
+            hdr = " ".join("s%d" % k for k in pick)
+            rows = [" ".join([v] * len(pick)) for v in vals]
+            outs = [k for k in pick if k % 2 == 1]
+            for kind in ("run", "static"):
+                cases.append({"id": "c07-many-%d-%d-%s" % (n, pick[0], kind), "kind": kind, "src": hdr + "\n" + "\n".join(rows) + "\n", "sigs": [dict(s_) for s_ in sigs],
+                              "layout": outs, "table": [["1"] * len(outs)], "echo": 0, "wdefault": 0, "faults": [], "max": 100, "seed": 1})
+    return cases
+
+
+_extend("C07", c07_many_signals, "plus signal lists of 64-130 signals of which the header names a few (out-of-range values on narrow signals at list positions >= 64)")
+_extend("C06", c07_many_signals, "plus signal lists of 64-130 signals")
+# C09 / C12: hundreds of blank lines before the header
+_extend("C09", lambda seed, tier: [{"id": "c09-lead-%d" % n, "kind": "parse", "src": "\n" * n + "A Q\n1 X\n", "text_kind": "lead-blank"} for n in (300, 900, 2500, 6000)],
+        "plus texts with up to 6000 blank lines before the header")
